@@ -13,7 +13,7 @@
    Functional: equal (api, input) => equal output, across processes, seeds and histories.                      *)
 EXTENDS Naturals, Sequences, FiniteSets, TLC, Json
 
-CONSTANTS MaxSig, OrderedMerge, ReadsLeak
+CONSTANTS MaxSig, MaxCalls, OrderedMerge, ReadsLeak
 
 Seeds == {1, 2}
 Procs == {"A", "B"}
@@ -45,7 +45,7 @@ Init == /\ seed \in [Procs -> Seeds]
         /\ leak = [p \in Procs |-> 0]
         /\ calls = [p \in Procs |-> <<>>]
 
-Call(p, x) == /\ Len(calls[p]) < 2
+Call(p, x) == /\ Len(calls[p]) < MaxCalls
               /\ calls' = [calls EXCEPT ![p] = Append(@, [input |-> x, out |-> Out(x, seed[p], leak[p])])]
               /\ leak' = [leak EXCEPT ![p] = @ + 1]           \* every call may leave state behind
               /\ UNCHANGED seed
